@@ -213,7 +213,7 @@ func checkWrite(c writeCase) *vt.Fail {
 	return nil
 }
 
-var segPool = []string{"a", "b", ".", "..", "", "c d", `x\y`, "target", "targetx", "sibling.txt", "..a", "a..", "...", "\x00"}
+var segPool = []string{"a", "b", ".", "..", "", "c d", `x\y`, "target", "targetx", "sibling.txt", "..a", "a..", "...", "\x00", "A", "B", "Target"}
 
 func genName(t *rapid.T) string {
 	n := rapid.IntRange(1, 4).Draw(t, "nseg")
@@ -473,8 +473,8 @@ func checkRT(c rtCase) *vt.Fail {
 	return nil
 }
 
-var dirNames = []string{"a", "b", "sub dir", ".hidden", "a/b", "a/.git", "x.d", "a/b/c"}
-var fileNames = []string{"f.txt", "g", ".dot", "with space.txt", "é.txt", "-- x --", "z.go", "a -- b", "README"}
+var dirNames = []string{"a", "b", "sub dir", ".hidden", "a/b", "a/.git", "x.d", "a/b/c", "A", "a/B"}
+var fileNames = []string{"f.txt", "g", ".dot", "with space.txt", "é.txt", "-- x --", "z.go", "a -- b", "README", "readme", "F.TXT", "G", "É.txt", "Makefile", "makefile"}
 var bodies = []string{"", "hello\n", "no newline", "-- x --\n", "a\n-- x --", "a\n-- x --\nb\n", ">quoted\n", "\xff\xfe\n", "x\r\n", "-- --\n", "--  --\n", "é\n", "line1\nline2\n", "-- a -- b --\r\n"}
 
 func genRT(t *rapid.T) rtCase {
